@@ -16,6 +16,8 @@ class Ty:
         return hash((self.kind, str(self.arg)))
 
     def __repr__(self):
+        if self.kind == "ext":
+            return "ExtReal"
         if self.kind in ("int", "real", "bool", "none", "str", "any"):
             return self.kind.capitalize()
         if self.kind == "ref":
@@ -29,6 +31,7 @@ class Ty:
         return self.kind in ("int", "real", "bool")
 
 
+EXT = Ty("ext")   # extended real: finite value or +/- infinity (math.inf in crowding distances)
 INT = Ty("int")
 REAL = Ty("real")
 BOOL = Ty("bool")
@@ -89,6 +92,8 @@ def parse_ty(s):
             return Ty(low)
         if low == "float":
             return REAL
+        if low == "extreal":
+            return EXT
         if low == "ref":
             return Ty("ref", args[0].arg if isinstance(args[0], Ty) and args[0].kind == "ref" else args[0])
         if low == "list":
